@@ -249,6 +249,37 @@ theorem edns_slot_noninterference (qs : List EdnsReq) (hq : ∀ q ∈ qs, q.hasO
         | false => rw [hq0 h] at hc; cases hc
       simp [ednsServe, EdnsSlot.enter, EdnsSlot.replyCookie, hc, ho]
 
+/-! ### replies kept by the transport -/
+
+/-- **A reply handed to its transport is never touched again.** Whatever is
+served afterwards (any number of requests, on the same pooled chain, through
+the same configured view records), every message already on the heap — the
+ones DoH / DoH3 pack only after the serve returned — is unchanged, and each
+request's own reply carries its own id. -/
+theorem retained_reply_stable (heap : List (Option Msg)) (reqs : List (Nat × Bool)) :
+    retainMany heap reqs = heap ++
+      (reqs.zipIdx heap.length).map (fun (q, a) => if q.2 then some { addr := a, id := q.1, body := q.1 } else none) := by
+  induction reqs generalizing heap with
+  | nil => simp [retainMany]
+  | cons q t ih =>
+    have := ih (retainServe heap q)
+    simp only [retainMany, List.foldl_cons] at this ⊢
+    rw [this]
+    simp [retainServe, List.zipIdx_cons, List.append_assoc]
+
+/-- in particular the messages already handed over are a prefix that never changes -/
+theorem retained_prefix_unchanged (heap : List (Option Msg)) (reqs : List (Nat × Bool)) :
+    (retainMany heap reqs).take heap.length = heap := by
+  rw [retained_reply_stable]; simp
+
+open SdnsVerif.Gen.C10 in
+/-- tie of the heap model to the tree: the bare-rcode reply is a fresh
+`new(dns.Msg)` (never storage of the pooled chain), and every record `views`
+puts into an answer is a `dns.Copy` of the configured one -/
+theorem retained_replies_are_own_allocations :
+    cancelwithrcode_allocates_reply = true ∧ views_answers_not_copied = [] := by
+  decide
+
 /-! ### failover, chain pool -/
 
 /-- **The failover writer answers under the client's transaction.** Whatever
@@ -428,6 +459,10 @@ example : ednsMany {} [{ hasOpt := true, cookie := some 7 }, { hasOpt := true },
 -- carrier: a pin of the previous request is gone after reset
 example : (((({} : Carrier).tryPin 5 105).1.reset 1).pinned 5) = none ∧ ((({} : Carrier).tryPin 5 105).1.pinned 5) = some 105 := by
   decide
+
+-- retained replies: the first reply (id 7) is still id 7 after two more requests were served
+example : retainMany [] [(7, true), (8, false), (9, true)] =
+    [some { addr := 0, id := 7, body := 7 }, none, some { addr := 2, id := 9, body := 9 }] := by decide
 
 -- failover: dead server, two SERVFAILs: the first retained failure leaves, under the client's id 77
 example : failoverWrite [.err, .resp 9001 2 5, .resp 9002 2 6] { id := 77, rcode := 2, mark := 0 } true =
